@@ -8,13 +8,16 @@
 (* An object cell has one kid per mutable slot (kb, props, quals, meths,   *)
 (* params, scopes: dictionaries; value: list or embedded object/reference; *)
 (* path: object); a dictionary cell one kid "#k" per stored object, a list *)
-(* cell one kid "#i" per element object.                                   *)
+(* cell one kid "#i" per element object.  A list cell of kind "empty" is   *)
+(* the EMPTY array (an array value with no elements is still a list the    *)
+(* copy must own); kind "" is a non-empty array.                           *)
 (*                                                                         *)
 (* Actions: DoCopy(m) for m in copy / copy.copy / deepcopy / pickle, in    *)
 (* the code's shape:                                                       *)
 (*   .copy()    new object cell; the setters build NEW child dictionaries  *)
 (*              holding the SAME child objects; cimvalue() builds a new    *)
-(*              list with the same elements, an embedded object / reference*)
+(*              list with the same elements (ALSO when there are none), an *)
+(*              embedded object / reference                                *)
 (*              value is passed through; CIMInstance: path.copy(),         *)
 (*              CIMClass: copy.copy(path); NocaseDict: new dict same items *)
 (*   copy.copy  new cell, all slots shared (a NocaseDict has a single slot,*)
@@ -34,10 +37,14 @@
 (* Regression switches (must violate Independence):                        *)
 (*   ShallowChildDict  .copy() passes the child dictionaries through       *)
 (*   SharedPath        CIMInstance.copy() assigns the path without copying *)
+(*   EmptyListPassThrough  cimvalue() returns an empty input list itself   *)
+(*                     ("nothing to convert"): copy() shares the empty     *)
+(*                     array with the original                             *)
 (***************************************************************************)
 EXTENDS CimEq
 
-CONSTANTS MaxRef, MaxMut, Roots, ShallowChildDict, SharedPath, Emit
+CONSTANTS MaxRef, MaxMut, Roots, ShallowChildDict, SharedPath,
+          EmptyListPassThrough, Emit
 
 VARIABLES heap, orig, cpy, abs0, hist, allmust
 vars == <<heap, orig, cpy, abs0, hist, allmust>>
@@ -73,6 +80,13 @@ tClass == T("O", "Class", <<K("path", tCName),
 tQDecl == T("O", "QualifierDeclaration",
             <<K("value", T("L", "", <<>>)), K("scopes", T("D", "", <<>>))>>)
 tDict == T("D", "NocaseDict", <<K("#k", tQual)>>)
+(* array-valued objects whose array is empty *)
+tEmptyL == T("L", "empty", <<>>)
+tQualE == T("O", "Qualifier", <<K("value", tEmptyL)>>)
+tPropE == T("O", "Property", <<K("value", tEmptyL), K("quals", tQuals)>>)
+tParmE == T("O", "Parameter", <<K("value", tEmptyL), K("quals", tQuals)>>)
+tQDeclE == T("O", "QualifierDeclaration",
+             <<K("value", tEmptyL), K("scopes", T("D", "", <<>>))>>)
 
 RootTree(r) ==
   CASE r = "InstanceName" -> tIName
@@ -87,9 +101,14 @@ RootTree(r) ==
     [] r = "Qualifier" -> tQual
     [] r = "QualifierDeclaration" -> tQDecl
     [] r = "NocaseDict" -> tDict
+    [] r = "PropertyEmpty" -> tPropE
+    [] r = "ParameterEmpty" -> tParmE
+    [] r = "QualifierEmpty" -> tQualE
+    [] r = "QualifierDeclarationEmpty" -> tQDeclE
 AllRoots == {"InstanceName", "ClassName", "Instance", "Class", "Property",
              "PropertyObj", "PropertyRef", "Method", "Parameter", "Qualifier",
-             "QualifierDeclaration", "NocaseDict"}
+             "QualifierDeclaration", "NocaseDict", "PropertyEmpty",
+             "ParameterEmpty", "QualifierEmpty", "QualifierDeclarationEmpty"}
 
 RECURSIVE Load(_, _), LoadKids(_, _, _, _)
 Load(h, tr) ==      \* <<heap, ref>>
@@ -133,7 +152,10 @@ MidKids(h, kind, ks, i, acc) ==
            x == IF IsDictSlot(key)
                 THEN IF ShallowChildDict THEN <<h, tgt>> ELSE Shallow(h, tgt)
                 ELSE IF key = "value"
-                THEN IF h[tgt].t = "L" THEN Shallow(h, tgt) ELSE <<h, tgt>>
+                THEN IF h[tgt].t = "L"
+                     THEN IF EmptyListPassThrough /\ h[tgt].kind = "empty"
+                          THEN <<h, tgt>> ELSE Shallow(h, tgt)
+                     ELSE <<h, tgt>>
                 ELSE IF key = "path"
                 THEN IF SharedPath THEN <<h, tgt>>
                      ELSE IF kind = "Instance" THEN Mid(h, tgt)
@@ -167,7 +189,12 @@ StepsOf(h, r, p) ==
   ELSE LET kd == h[r].kids[p[1]] IN
        <<kd.key \o ":" \o h[kd.ref].t>> \o StepsOf(h, kd.ref, Tail(p))
 
-RootKind(r) == IF r \in {"PropertyObj", "PropertyRef"} THEN "Property" ELSE r
+RootKind(r) ==
+  CASE r \in {"PropertyObj", "PropertyRef", "PropertyEmpty"} -> "Property"
+    [] r = "ParameterEmpty" -> "Parameter"
+    [] r = "QualifierEmpty" -> "Qualifier"
+    [] r = "QualifierDeclarationEmpty" -> "QualifierDeclaration"
+    [] OTHER -> r
 
 Empty == [r \in 1..MaxRef |-> Free]
 
